@@ -257,7 +257,7 @@ func renderWF(epoch, up, rev string, hasRev bool) string {
 // strings every version stream starts with: the corners of the syntax (signed and empty epochs, hyphens
 // and colons in odd places, white space around and inside)
 var verFixedSeeds = []string{"", " ", "1", "1.0-1", "1:1.0-1", "0:1:2", "1.0--", "-1", "0:-1", "-", ":", "1:", ":1", "a", "1 2", " 1 ", " 1 ",
-		"1 2", "+5:1", "-5:1", "-0:1", "9223372036854775807:1", "9223372036854775808:1", "1_0:1", "0x1:1", "1:2:3-4-5", "1.0-1_2", "1.0!", "é", "1é", "1-é", "1\x00", "1:-",
+	"1 2", "+5:1", "-5:1", "-0:1", "9223372036854775807:1", "9223372036854775808:1", "1_0:1", "0x1:1", "1:2:3-4-5", "1.0-1_2", "1.0!", "é", "1é", "1-é", "1\x00", "1:-",
 	"-00:1.2", "-0:1~", "+0:1", "-0:a", "-0:1-2", "+:1.0-1", "-:1.0-1", ":1.0-1", ":1:2-3", "1-0:1", "0:", "0:-", "0:1-", "-0:", "+0:", "1:2-:3", " 1:2.30-10+b1", "1:2.30-10+b1\n", "\t1.0-1\r\n", "1.0-1 \n ", "\n1.0"}
 
 func streamVerparse(g *core.G) {
